@@ -25,6 +25,7 @@ def r1_cancel_on_running(r, facts):
     if not r.require(len(ves) == 1, 'State::drop', 'Running test not found', f.where()):
         return
     run_edge = ves[0]['edge']
+    r.require(not ves[0]['shared_with'], 'State::drop/cancel-not-running', 'the cancel path is also taken for status %s (no cancellation request must be made for operations that are not in flight)' % ves[0]['shared_with'], f.where())
     cancels = f.calls_to(life.CANCEL)
     r.require(len(cancels) == 1, 'State::drop/cancel', 'expected exactly one Submissions::cancel call in State::drop, found %d' % len(cancels), f.where())
     eb = ExprBuilder(f)
